@@ -406,6 +406,8 @@ def coordinate(drv, pool, plan_: dict, deadline: float) -> None:
             r = rng.stream(ds, "args")
             meta = r.choice(["poetry", "pdm", "setup", "none"])
             config = docgen.random_config(r, doc)
+            if dmeta["toggles"].get("titles") and r.random() < 0.35:
+                config["use_path_prefixes_for_title_model_names"] = False  # titled inline classes are then named by their title alone
             if dmeta.get("ct_overrides"):
                 config["content_type_overrides"] = dmeta["ct_overrides"]
             with_hooks = (i % plan_["hooks_every"]) == 0
